@@ -706,12 +706,30 @@ pub fn generate(prop: &str, seed: u64, idx: u64, tier: Tier) -> Plan {
         p.ops.sort_by_key(|o| o.at_ms);
         p.heal_at_ms = end;
     }
+    // socket kind (drawn from its own stream so that every other choice of the plan stays what it was): in 30 % of the
+    // runs A also has a passive ICE-TCP listener (1 = from a port range, 2 = the process-wide shared port with
+    // demultiplexing by ufrag) and the attacker's unauthenticated requests travel over its own TCP connections to it
+    let mut rs = Rng::new(mix(mix(seed, idx), 0x7463_7073_6f63_6b));
+    if p.knob("srflx", 0) == 0 && p.knob("mux", 0) == 0 && rs.chance(30) {
+        p.knobs.insert("via_tcp".into(), 1 + rs.below(2) as i64);
+    }
     p
 }
 
 // ---------------------------------------------------------------------------------------------
 // run
 // ---------------------------------------------------------------------------------------------
+fn cfg_tcp(side: usize, mux: bool, seed: u64, tcp: i64) -> RtcConfiguration {
+    let mut c = cfg(side, mux, seed);
+    if tcp != 0 {
+        c.ice_tcp_policy = rustrtc::config::IceTcpPolicy::Enabled;
+        let base = 52_000 + (seed % 500) as u16 * 8;
+        c.tcp_port_range_start = Some(base);
+        c.tcp_port_range_end = Some(if tcp == 2 { base } else { base + 3 });
+    }
+    c
+}
+
 fn cfg(side: usize, mux: bool, seed: u64) -> RtcConfiguration {
     let mut c = RtcConfiguration::default();
     c.bind_ip = Some(if side == 0 { "10.0.0.1".into() } else { "10.0.0.2".into() });
@@ -917,13 +935,20 @@ pub async fn run(ctx: &Ctx) {
     let led = Arc::new(Mutex::new(Ledger::default()));
     ctx.net.set_monitor(Box::new(IceMon(led.clone())));
 
-    let (a, ra) = IceTransportBuilder::new(cfg(0, mux, p.seed)).role(if role_controlled { IceRole::Controlled } else { IceRole::Controlling }).build();
+    let via_tcp = p.knob("via_tcp", 0).clamp(0, 2);
+    let (a, ra) = IceTransportBuilder::new(cfg_tcp(0, mux, p.seed, via_tcp)).role(if role_controlled { IceRole::Controlled } else { IceRole::Controlling }).build();
     let (b, rb) = IceTransportBuilder::new(cfg(1, false, p.seed)).role(if role_controlled { IceRole::Controlling } else { IceRole::Controlled }).build();
     let ta = tokio::spawn(vh::wrap_task(ra));
     let tb = tokio::spawn(vh::wrap_task(rb));
     let ok = gathered(&a).await && gathered(&b).await;
-    let a_loc = a.local_candidates();
+    let a_all = a.local_candidates();
+    // A's passive ICE-TCP listener (knob via_tcp); B, which has ICE-TCP disabled, is only told A's UDP candidate
+    let a_tcp: Option<SocketAddr> = a_all.iter().find(|c| c.transport == "tcp" && c.address.port() != 9).map(|c| c.address);
+    let a_loc: Vec<IceCandidate> = a_all.iter().filter(|c| c.transport != "tcp").cloned().collect();
     let b_loc = b.local_candidates();
+    if via_tcp != 0 && a_tcp.is_none() {
+        ctx.violate("HARNESS.c06-gather", format!("via_tcp={via_tcp} but A gathered no passive TCP candidate: {:?}", a_all.iter().map(|c| format!("{}/{}", c.transport, c.address)).collect::<Vec<_>>()));
+    }
     if !ok || a_loc.len() != 1 || b_loc.len() != 1 {
         ctx.violate("HARNESS.c06-gather", format!("gathering: ok={ok} A has {} candidates, B has {}", a_loc.len(), b_loc.len()));
         a.stop();
@@ -977,6 +1002,7 @@ pub async fn run(ctx: &Ctx) {
     let mut hit_target = 0u64;
     let mut last_obs = observe(&a);
     let mut a_started = false;
+    let mut m_conns: Vec<vh::TcpStream> = Vec::new();
 
     for (at, _, item) in items {
         ctx.sleep_until_ms(at).await;
@@ -998,7 +1024,7 @@ pub async fn run(ctx: &Ctx) {
                     j.signalled.insert(c.address);
                     a.add_remote_candidate(c);
                 }
-                for c in a.local_candidates() {
+                for c in a_loc.iter().cloned() {
                     b.add_remote_candidate(c);
                 }
                 if let Err(e) = b.start(pa.clone()) {
@@ -1147,14 +1173,40 @@ pub async fn run(ctx: &Ctx) {
                 let st_before = before.state;
                 ctx.ev(&format!("attack {sem} while {:?}", st_before), &format!("from {from} to {a_addr} len={}", bytes.len()));
                 let inj0 = led.lock().unwrap().injected_delivered;
-                ctx.net.inject(from, a_addr, &bytes);
+                // socket kind: an unauthenticated request may travel as an RFC 4571 frame over the attacker's own TCP
+                // connection to A's passive listener (a new connection, or - every other time - the one opened before)
+                let over_tcp = judged && is_req && op.kind == "req" && a_tcp.is_some() && !j.faults_on_wire;
+                let mut tcp_ok = false;
+                if over_tcp {
+                    let reuse = i % 2 == 1 && !m_conns.is_empty();
+                    if !reuse {
+                        if let Ok(raw) = ctx.net.tcp_connect_from(Some(from.ip()), a_tcp.unwrap()) {
+                            let okc = tokio::time::timeout(Duration::from_secs(2), std::future::poll_fn(|cx| vh::SimTcpStream::poll_connected(&*raw, cx))).await;
+                            if matches!(okc, Ok(Ok(()))) {
+                                m_conns.push(vh::TcpStream::from_sim(raw));
+                            }
+                        }
+                    }
+                    if let Some(sck) = m_conns.last_mut() {
+                        use tokio::io::AsyncWriteExt;
+                        let mut f = (bytes.len() as u16).to_be_bytes().to_vec();
+                        f.extend_from_slice(&bytes);
+                        tcp_ok = sck.write_all(&f).await.is_ok();
+                        if let Ok(l) = sck.local_addr() {
+                            ctx.ev("attack travels over TCP", &format!("{l} -> {} reuse={}", a_tcp.unwrap(), reuse as u8));
+                        }
+                    }
+                    ctx.stat(if tcp_ok { "probe.unauth_req_over_tcp" } else { "probe.tcp_delivery_failed" }, 1);
+                } else {
+                    ctx.net.inject(from, a_addr, &bytes);
+                }
                 tokio::time::sleep(Duration::from_millis(lat_ms(1) + settle_ms)).await;
                 let after = observe(&a);
                 let t1 = ctx.sh.lock().unwrap().now_ms();
                 let (others, delivered) = {
                     let l = led.lock().unwrap();
-                    let delivered = l.injected_delivered > inj0;
-                    (l.deliveries_since(t0 - 500.0).saturating_sub(delivered as usize), delivered)
+                    let delivered = if over_tcp { tcp_ok } else { l.injected_delivered > inj0 };
+                    (l.deliveries_since(t0 - 500.0).saturating_sub((delivered && !over_tcp) as usize), delivered)
                 };
                 if !delivered {
                     ctx.violate("HARNESS.c06-inject", format!("attacker packet not delivered within {} ms", lat_ms(1) + settle_ms));
@@ -1240,6 +1292,7 @@ pub async fn run(ctx: &Ctx) {
     if hit_target > 0 {
         ctx.stat("nontrivial", 1);
     }
+    drop(m_conns);
     a.stop();
     b.stop();
     tokio::time::sleep(Duration::from_millis(300)).await;
